@@ -8,20 +8,34 @@ import (
 )
 
 type SurnameInList struct {
-	document *gedcom.Document
-	surname  string
+	document   *gedcom.Document
+	surname    string
+	visibility LivingVisibility
 }
 
-func NewSurnameInList(document *gedcom.Document, surname string) *SurnameInList {
+func NewSurnameInList(document *gedcom.Document, surname string, visibility LivingVisibility) *SurnameInList {
 	return &SurnameInList{
-		document: document,
-		surname:  surname,
+		document:   document,
+		surname:    surname,
+		visibility: visibility,
 	}
 }
 
 func (c *SurnameInList) WriteHTMLTo(w io.Writer) (int64, error) {
 	count := 0
 	for _, individual := range c.document.Individuals() {
+		// Living individuals are only counted when they are shown. Otherwise
+		// the number would tell how many living people have this surname.
+		if individual.IsLiving() {
+			switch c.visibility {
+			case LivingVisibilityHide, LivingVisibilityPlaceholder:
+				continue
+
+			case LivingVisibilityShow:
+				// Proceed.
+			}
+		}
+
 		if individual.Name().Surname() == c.surname {
 			count++
 		}
